@@ -173,7 +173,9 @@ class Runtime:
         """
 
         try:
-            handler = self.handlers[type(request)]
+            handler = self.handlers.get(type(request)) or _DEFAULT_HANDLERS[
+                type(request)
+            ]
         except KeyError as e:
             raise TypeError(
                 f"No handler for request type {type(request).__qualname__}"
